@@ -135,6 +135,7 @@ type zzvRig struct {
 	cbMu    sync.Mutex
 	cbs     []string
 	wg      sync.WaitGroup
+	sent    map[string]int // data frames that reached a registered stream (numbers the chunks like the spec's nsent)
 }
 
 var zzvCurRig atomic.Pointer[zzvRig]
@@ -197,7 +198,7 @@ func zzvNewRig(t *testing.T) *zzvRig {
 	local, _ := identity.NewAgentID()
 	remote, _ := identity.NewAgentID()
 	r := &zzvRig{t: t, str: map[string]*Stream{}, id: map[string]uint64{"a": 11, "b": 12}, rd: map[string]*zzvReader{},
-		gateArr: make(chan struct{}), gateRel: make(chan struct{}), fhDone: make(chan error, 1)}
+		gateArr: make(chan struct{}), gateRel: make(chan struct{}), fhDone: make(chan error, 1), sent: map[string]int{}}
 	r.ctx, r.cancel = context.WithCancel(context.Background())
 	r.m = NewManager(DefaultManagerConfig(), local)
 	r.m.SetCallbacks(nil, func(s *Stream, err error) {
@@ -382,10 +383,8 @@ func (r *zzvRig) apply(a zzvStAct) (res string, chunk int, torn map[string]bool)
 		}
 		var data []byte
 		if a.Hd {
-			k := 1
-			// chunk number = data frames that reached this (registered) stream so far + 1; tracked by the rig
-			k = r.nextChunk(n)
-			data = []byte(n + strconv.Itoa(k))
+			// chunk number = data frames that reached this (registered) stream so far + 1
+			data = []byte(n + strconv.Itoa(r.sent[n]+1))
 		}
 		id := r.id[n]
 		go func() { r.fhDone <- r.m.HandleStreamData(id, flags, data) }()
